@@ -54,9 +54,8 @@ def numOk (u dt : Str) : Bool :=
 def shortOk (lex dt : Str) : Bool :=
   (dt == xsdBoolean && (lex == sTrue || lex == sFalse)) ||
   (match lex with
-   | '+' :: _ => false
-   | '-' :: u => numOk u dt
-   | u => numOk u dt)
+   | [] => false
+   | c :: u => if c = '+' then false else if c = '-' then numOk u dt else numOk lex dt)
 
 def renderCell (ch : CellChoice) : Cell → Str
   | none => []
